@@ -9,6 +9,7 @@ package json
 //@ pred pInv(p) := p != nil && p.r != nil && inputInv(p.r) && len(p.state) >= 1 && p.state[0] == ValueState &&
 //@     forall(i, 1, len(p.state), isContainer(p.state[i]))
 //@ pred pStep(p) := pInv(p) && p.r.pos >= old(p.r.pos)
+//@ pred tokStart(p, tok) := ptr(tok) - ptr(p.r.buf)
 //@ pred isJSONWS(c) := c == ' ' || c == '\n' || c == '\r' || c == '\t'
 
 //@ func Parser.State
@@ -26,11 +27,13 @@ package json
 //@   preserves[S] p != nil && p.r != nil && bufInv(p.r) && p.r.pos >= old(p.r.pos)
 //@   ensures[S]  !result ==> p.r.pos == old(p.r.pos)
 //@   ensures[S]  result ==> p.r.pos >= old(p.r.pos)+4
+//@   ensures[F]  result ==> old(p.r.buf[p.r.pos]) == 't' || old(p.r.buf[p.r.pos]) == 'f' || old(p.r.buf[p.r.pos]) == 'n'
 
 //@ func Parser.consumeNumberToken
 //@   preserves[S] p != nil && p.r != nil && inputInv(p.r) && p.r.pos >= old(p.r.pos)
 //@   ensures[S]  !result ==> p.r.pos == old(p.r.pos)
 //@   ensures[S]  result ==> p.r.pos > old(p.r.pos)
+//@   ensures[F]  result ==> old(p.r.buf[p.r.pos]) == '-' || ('0' <= old(p.r.buf[p.r.pos]) && old(p.r.buf[p.r.pos]) <= '9')
 //@   loop * invariant p.r.pos > old(p.r.pos)
 //@   loop * decreases len(p.r.buf) - p.r.pos
 
@@ -50,3 +53,39 @@ package json
 //@   ensures[S,C01] @monotone: p.r.pos >= old(p.r.pos)
 //@   ensures[S,C01] @sticky: old(p.r.pos) == len(p.r.buf)-1 ==> result0 == ErrorGrammar && p.r.pos == old(p.r.pos)
 //@   ensures[S,C01] @noinvent: result0 == ErrorGrammar ==> result1 == nil
+// ---- C10: nesting and conservation (F/T facets)
+//@   ensures[T,C10] @slice: result0 != ErrorGrammar ==> len(result1) > 0 && within(result1, p.r.buf[old(p.r.pos):p.r.pos])
+//@   ensures[T,C10] @skipped: result0 != ErrorGrammar ==> forall(k, old(p.r.pos), tokStart(p, result1),
+//@        isJSONWS(p.r.buf[k]) || (p.r.buf[k] == ',' && forall(j, old(p.r.pos), k, isJSONWS(p.r.buf[j]))))
+//@   ensures[T,C10] @value-end: result0 != ErrorGrammar && !(result0 == StringGrammar && old(p.state[len(p.state)-1]) == ObjectKeyState) ==>
+//@        tokStart(p, result1) + len(result1) == p.r.pos
+//@   ensures[T,C10] @key-colon: result0 == StringGrammar && old(p.state[len(p.state)-1]) == ObjectKeyState ==>
+//@        p.r.buf[p.r.pos-1] == ':' && forall(k, tokStart(p, result1) + len(result1), p.r.pos-1, isJSONWS(p.r.buf[k]))
+//@   ensures[F,C10] @push-obj: result0 == StartObjectGrammar ==> len(p.state) == old(len(p.state))+1 && p.state[len(p.state)-1] == ObjectKeyState
+//@   ensures[F,C10] @push-arr: result0 == StartArrayGrammar ==> len(p.state) == old(len(p.state))+1 && p.state[len(p.state)-1] == ArrayState
+//@   ensures[F,C10] @push-keeps: result0 == StartObjectGrammar || result0 == StartArrayGrammar ==> forall(i, 0, old(len(p.state)), p.state[i] == old(p.state[i]))
+//@   ensures[F,C10] @pop-obj: result0 == EndObjectGrammar ==> old(p.state[len(p.state)-1]) == ObjectKeyState && len(p.state) == old(len(p.state))-1
+//@   ensures[F,C10] @pop-arr: result0 == EndArrayGrammar ==> old(p.state[len(p.state)-1]) == ArrayState && len(p.state) == old(len(p.state))-1
+//@   ensures[F,C10] @pop-top: result0 == EndObjectGrammar || result0 == EndArrayGrammar ==>
+//@        p.state[len(p.state)-1] == ite(old(p.state[len(p.state)-2]) == ObjectValueState, ObjectKeyState, old(p.state[len(p.state)-2])) &&
+//@        forall(i, 0, len(p.state)-1, p.state[i] == old(p.state[i]))
+//@   ensures[F,C10] @same-depth: result0 == StringGrammar || result0 == NumberGrammar || result0 == LiteralGrammar || result0 == ErrorGrammar ==> len(p.state) == old(len(p.state))
+//@   ensures[F,C10] @key-value: old(p.state[len(p.state)-1]) == ObjectKeyState && result0 != ErrorGrammar && result0 != EndObjectGrammar ==>
+//@        result0 == StringGrammar && result1[0] == '"' && p.state[len(p.state)-1] == ObjectValueState
+//@   ensures[F,C10] @value-done: old(p.state[len(p.state)-1]) == ObjectValueState && (result0 == StringGrammar || result0 == NumberGrammar || result0 == LiteralGrammar) ==>
+//@        p.state[len(p.state)-1] == ObjectKeyState
+//@   ensures[F,C10] @delims: result0 != ErrorGrammar ==> (result1[0] == '{' <==> result0 == StartObjectGrammar) && (result1[0] == '}' <==> result0 == EndObjectGrammar) &&
+//@        (result1[0] == '[' <==> result0 == StartArrayGrammar) && (result1[0] == ']' <==> result0 == EndArrayGrammar)
+//@   ensures[F,C10] @missing-comma: old(p.needComma) && result0 != ErrorGrammar && result0 != EndObjectGrammar && result0 != EndArrayGrammar ==>
+//@        exists(k, old(p.r.pos), tokStart(p, result1), p.r.buf[k] == ',')
+//@   ensures[F,C10] @need-comma: result0 == NumberGrammar || result0 == LiteralGrammar || result0 == EndObjectGrammar || result0 == EndArrayGrammar ||
+//@        (result0 == StringGrammar && old(p.state[len(p.state)-1]) != ObjectKeyState) ==> p.needComma
+//@   ensures[F,C10] @no-comma-needed: result0 == StartObjectGrammar || result0 == StartArrayGrammar ||
+//@        (result0 == StringGrammar && old(p.state[len(p.state)-1]) == ObjectKeyState) ==> !p.needComma
+
+//@ func Parser.Err
+//@   requires[S] pInv(p)
+
+//@ func NewParser
+//@   requires[S] bufInv(r) && r.start <= r.pos
+//@   ensures[S]  pInv(result) && result.r == r && len(result.state) == 1 && !result.needComma
